@@ -53,13 +53,13 @@ var targets = map[string][]string{
 		"Client.SendProtobufParallelWithDecoder"},
 	"network/tcp.go":      {"TCPConn.Receive", "TCPConn.receiveRawProd+cond", "TCPConn.Send", "TCPConn.sendRaw", "getListenAddress+cond"},
 	"network/encoding.go": {"Marshal", "Unmarshal+cond"},
-	"network/router.go": {"validPeers.set", "validPeers.get", "validPeers.isValid+cond", "Router.SetValidPeers", "Router.isPeerValid",
+	"network/router.go": {"validPeers.set", "validPeers.get", "validPeers.isValid+cond", "Router.SetValidPeers", "Router.GetValidPeers", "Router.isPeerValid",
 		"Router.Start", "Router.Stop", "Router.Send", "Router.connect", "Router.removeConnection", "Router.handleConn",
 		"Router.registerConnection+cond", "Router.launchHandleRoutine+cond", "Router.receiveServerIdentity+cond",
 		"Router.triggerConnectionErrorHandlers"},
 	"network/dispatch.go": {"BlockingDispatcher.Dispatch", "RoutineDispatcher.Dispatch"},
 	"service.go":          {"serviceManager.Process"},
-	"network/tls.go": {"makeVerifier+cond", "certMaker.get", "NewTLSListenerWithListenAddr", "NewTLSConn", "tlsConfig"},
+	"network/tls.go": {"makeVerifier+cond+lit", "certMaker.get+cond", "certMaker.getCertificate", "certMaker.getClientCertificate+cond", "pubFromCN+cond", "pubToCN", "mkNonce", "NewTLSListenerWithListenAddr", "NewTLSConn", "tlsConfig"},
 	"network/address.go": {"Address.Valid+cond", "validHostname+cond", "Address.ConnType+cond", "Address.NetworkAddress+cond",
 		"Address.Host+cond", "Address.Port+cond", "Address.IsHostname+cond", "NewAddress"},
 	"network/struct.go": {"GlobalBind+cond", "ServerIdentity.GetID", "ServerIdentity.Equal+cond"},
@@ -131,6 +131,8 @@ func callName(c *ast.CallExpr) string {
 type visitor struct {
 	out  *[]string
 	cond bool
+	// lit: a function literal that is returned is part of the shape ("func{" ... "}")
+	lit bool
 }
 
 // cond renders a condition with its operators (decision logic)
@@ -190,6 +192,15 @@ func (v visitor) Visit(n ast.Node) ast.Visitor {
 		}
 	case *ast.ReturnStmt:
 		if v.cond {
+			if v.lit {
+				for _, r := range x.Results {
+					if fl, ok := r.(*ast.FuncLit); ok {
+						*v.out = append(*v.out, "func{")
+						ast.Walk(v, fl.Body)
+						*v.out = append(*v.out, "}")
+					}
+				}
+			}
 			var rs []string
 			for _, r := range x.Results {
 				rs = append(rs, cond(r))
@@ -278,6 +289,8 @@ func main() {
 			bodies[name] = fd.Body
 		}
 		for _, want := range targets[f] {
+			withLit := strings.HasSuffix(want, "+lit")
+			want = strings.TrimSuffix(want, "+lit")
 			withCond := strings.HasSuffix(want, "+cond")
 			want = strings.TrimSuffix(want, "+cond")
 			body, ok := bodies[want]
@@ -287,7 +300,7 @@ func main() {
 				missing = append(missing, f+":"+want)
 				seq = []string{"<function not found>"}
 			} else {
-				ast.Walk(visitor{&seq, withCond}, body)
+				ast.Walk(visitor{&seq, withCond, withLit}, body)
 			}
 			id := strings.NewReplacer(".", "_", "/", "_").Replace(strings.TrimSuffix(f, ".go") + "_" + want)
 			b.WriteString("def " + id + " : List String := [")
